@@ -230,6 +230,14 @@ func cmdCheck(args []string) int {
 			if e.TimeoutS > 0 && cfg.TimeBudget == 0 {
 				cfg.TimeBudget = time.Duration(e.TimeoutS) * time.Second
 			}
+			if cfg.TimeBudget == 0 {
+				// a run always ends: an entry that exceeds its budget (a changed tree can blow up the
+				// path count) is reported as inconclusive, together with any counterexample found so far
+				cfg.TimeBudget = 20 * time.Minute
+				if tier == 1 {
+					cfg.TimeBudget = 90 * time.Minute
+				}
+			}
 			if tier == 1 {
 				cfg.TimeoutMs = 120000
 			}
